@@ -147,6 +147,9 @@ func c12(c *h.Ctx) {
 		}
 		rec := avc.NewAVCDecoderConfigurationRecord()
 		rec.AVCProfileIndication = avc.AVCProfile(r.Intn(256))
+		if r.Chance(35) {
+			rec.AVCProfileIndication = avc.AVCProfile(r.Pick(66, 77, 88, 100, 110, 122, 144, 244, 44))
+		}
 		rec.AVCLevelIndication = avc.AVCLevel(r.Intn(256))
 		rec.LengthSizeMinusOne = uint8(r.Intn(4))
 		compat := uint8(r.Intn(256))
@@ -170,16 +173,35 @@ func c12(c *h.Ctx) {
 			}
 			return strings.Join(ps, ",")
 		}
-		spec := c.O.Call("avc.rec.spec", fmt.Sprint(uint16(rec.AVCProfileIndication)), fmt.Sprint(compat), fmt.Sprint(uint8(rec.AVCLevelIndication)),
-			fmt.Sprint(rec.LengthSizeMinusOne), raws(rec.SequenceParameterSetNALUnits), raws(rec.PictureParameterSetNALUnits))
-		c.Hold(h.Hex(out) == spec, "rec.is_spec", in, h.Trunc(h.Hex(out), 200), h.Trunc(spec, 200))
-		// property: round trip (from own bytes and from the spec writer's bytes)
+		prof := fmt.Sprint(uint16(rec.AVCProfileIndication))
+		needsExt := c.O.Call("avc.needsext", prof) == "1"
+		// a conformant writer appends the High-profile block exactly for profile_idc 100/110/122/144 (2012 edition)
+		ext := "-"
+		if needsExt {
+			ext = fmt.Sprintf("%d.%d.%d._", r.Intn(4), r.Intn(8), r.Intn(8))
+			if r.Chance(30) {
+				ext = fmt.Sprintf("%d.%d.%d.%s", r.Intn(4), r.Intn(8), r.Intn(8), h.Hex(append([]byte{0x6d}, r.Bytes(r.Intn(5))...)))
+			}
+		}
+		spec := c.O.Call("avc.rec.spec2", prof, fmt.Sprint(compat), fmt.Sprint(uint8(rec.AVCLevelIndication)),
+			fmt.Sprint(rec.LengthSizeMinusOne), raws(rec.SequenceParameterSetNALUnits), raws(rec.PictureParameterSetNALUnits), ext)
+		if needsExt {
+			// known finding K6: the library does not write the block (it does not parse the SPS the values come from)
+			c.Hold(h.Hex(out) == spec, "rec.is_spec.high_profile_ext", "K6 high-profile record profile="+prof+" "+h.Trunc(in, 200), h.Trunc(h.Hex(out), 200), h.Trunc(spec, 200))
+			// everything up to the block is the spec's
+			base := c.O.Call("avc.rec.spec", prof, fmt.Sprint(compat), fmt.Sprint(uint8(rec.AVCLevelIndication)),
+				fmt.Sprint(rec.LengthSizeMinusOne), raws(rec.SequenceParameterSetNALUnits), raws(rec.PictureParameterSetNALUnits))
+			c.Hold(h.Hex(out) == base, "rec.is_spec_base", in, h.Trunc(h.Hex(out), 200), h.Trunc(base, 200))
+		} else {
+			c.Hold(h.Hex(out) == spec, "rec.is_spec", in, h.Trunc(h.Hex(out), 200), h.Trunc(spec, 200))
+		}
+		// property: round trip (from own bytes and from the conformant writer's bytes, block included)
 		dec, _ := avcRecDec(out)
 		c.Hold(dec == "ok "+fields, "rec.roundtrip", in, h.Trunc(dec, 200), "ok "+h.Trunc(fields, 200))
 		dec2, rec2 := avcRecDec(h.UnHex(spec))
-		c.Hold(dec2 == "ok "+fields, "rec.spec_read", in, h.Trunc(dec2, 200), "ok "+h.Trunc(fields, 200))
+		c.Hold(dec2 == "ok "+fields, "rec.spec_read", in+" ext="+ext, h.Trunc(dec2, 200), "ok "+h.Trunc(fields, 200))
 		c.Eq("rec.dec", "avc.rec.dec "+h.Trunc(spec, 200), dec2, c.O.Call("avc.rec.dec", spec))
-		if rec2 != nil {
+		if rec2 != nil && !needsExt {
 			again, _ := rec2.MarshalBinary()
 			c.Hold(h.Hex(again) == spec, "rec.canonical_rt", in, h.Trunc(h.Hex(again), 200), h.Trunc(spec, 200))
 		}
